@@ -66,8 +66,15 @@ class C22(Prop):
                 units = rng.sample(UNIT_POOL, rng.choice([0, 0, 1, 2, 4]))
                 nonneg = rng.random() < 0.4
                 intonly = rng.random() < 0.3
-                num = rng.choice(["5", "12", "0", "1.5", "10.", ".5", "-3", "-0.25", "-.5", "1.2.3", ".", "-", "٣", "1e3", "", "007"])
-                unit = rng.choice(units + [""] + UNIT_POOL[:3]) if rng.random() < 0.8 else "xx"
+                good = ["5", "12", "0", "007"] + ([] if intonly else ["1.5", "10.", ".5"])
+                if not nonneg:
+                    good += ["-3"] + ([] if intonly else ["-0.25", "-.5"])
+                if rng.random() < 0.6:
+                    num = rng.choice(good)
+                    unit = rng.choice(units) if units else ""
+                else:
+                    num = rng.choice(["5", "12", "0", "1.5", "10.", ".5", "-3", "-0.25", "-.5", "1.2.3", ".", "-", "٣", "1e3", "", "007"])
+                    unit = rng.choice(units + [""] + UNIT_POOL[:3]) if rng.random() < 0.8 else "xx"
                 sep = rng.choice(["", " ", "  ", "\t", " "])
                 s = rng.choice(["", " ", "\n"]) + num + sep + unit + rng.choice(["", " ", "\n", " \n"])
                 out.append(["num", units, nonneg, intonly, s])
